@@ -4,6 +4,7 @@ package c19
 // guard against size values that would make the sandbox attempt a giant allocation.
 
 import (
+	"bufio"
 	"bytes"
 	"context"
 	"encoding/binary"
@@ -17,6 +18,8 @@ import (
 	"runtime"
 	"runtime/debug"
 	"sync"
+	"sync/atomic"
+	"testing/iotest"
 
 	"github.com/folbricht/desync"
 	"github.com/klauspost/compress/zstd"
@@ -46,6 +49,8 @@ var errUnsafe = errors.New("c19 guard: value withheld (would be a giant allocati
 type guard struct {
 	b      []byte
 	off    int
+	src    io.Reader // if set, the bytes come from here instead of b (stream sources)
+	tmp    [8]byte
 	lo     uint64
 	dom    *domain
 	elem   string
@@ -58,42 +63,223 @@ func newGuard(b []byte, lo uint64, d *domain) *guard {
 	return &guard{b: b, lo: lo, dom: d, elem: "none"}
 }
 
+// newStreamGuard puts the guard in front of an arbitrary (non-seekable) reader.
+func newStreamGuard(src io.Reader, lo uint64, d *domain) *guard {
+	return &guard{src: src, lo: lo, dom: d, elem: "none"}
+}
+
+// observe inspects one 8-byte value on its way to the decoder; false = withheld.
+func (g *guard) observe(v uint64) bool {
+	if isUnsafe(v, g.lo) {
+		g.unsafe = true
+		return false
+	}
+	// attribution: a type identifier names the element in flight; the fixed fields that the
+	// decoder reads next (which, in a short element, may be the following header) do not
+	if g.skip > 0 {
+		g.skip--
+	} else if t, ok := g.dom.byVal[v]; ok && v != tailGoodbye && v != tailTable {
+		g.elem = t.name
+		switch t.kind {
+		case kFixed:
+			g.skip = int(t.fixed-16) / 8
+		case kACLName:
+			g.skip = 2
+		case kGoodbye: // items are read as 8-byte values: all of them belong to the goodbye
+			g.skip = 1 << 40
+			if n := (g.prev - 16) / 24; g.prev >= 16 && n < 1<<38 {
+				g.skip = int(3 * n)
+			}
+		}
+	}
+	g.prev = v
+	return true
+}
+
 func (g *guard) Read(p []byte) (int, error) {
 	if len(p) == 0 {
 		return 0, nil
+	}
+	if g.src != nil {
+		if len(p) != 8 {
+			n, err := g.src.Read(p)
+			g.off += n
+			return n, err
+		}
+		n, _ := io.ReadFull(g.src, g.tmp[:])
+		if n == 8 && !g.observe(binary.LittleEndian.Uint64(g.tmp[:])) {
+			return 0, errUnsafe
+		}
+		if n == 0 {
+			return 0, io.EOF
+		}
+		copy(p, g.tmp[:n])
+		g.off += n
+		return n, nil
 	}
 	if g.off >= len(g.b) {
 		return 0, io.EOF
 	}
 	if len(p) == 8 && len(g.b)-g.off >= 8 {
-		v := binary.LittleEndian.Uint64(g.b[g.off:])
-		if isUnsafe(v, g.lo) {
-			g.unsafe = true
+		if !g.observe(binary.LittleEndian.Uint64(g.b[g.off:])) {
 			return 0, errUnsafe
 		}
-		// attribution: a type identifier names the element in flight; the fixed fields that the
-		// decoder reads next (which, in a short element, may be the following header) do not
-		if g.skip > 0 {
-			g.skip--
-		} else if t, ok := g.dom.byVal[v]; ok && v != tailGoodbye && v != tailTable {
-			g.elem = t.name
-			switch t.kind {
-			case kFixed:
-				g.skip = int(t.fixed-16) / 8
-			case kACLName:
-				g.skip = 2
-			case kGoodbye: // items are read as 8-byte values: all of them belong to the goodbye
-				g.skip = 1 << 40
-				if n := (g.prev - 16) / 24; g.prev >= 16 && n < 1<<38 {
-					g.skip = int(3 * n)
-				}
-			}
-		}
-		g.prev = v
 	}
 	n := copy(p, g.b[g.off:])
 	g.off += n
 	return n, nil
+}
+
+// seekGuard is the guard as an io.Seeker with the semantics of bytes.Reader and *os.File:
+// positions beyond the end are accepted, reading there gives io.EOF.
+type seekGuard struct{ *guard }
+
+func (s seekGuard) Seek(offset int64, whence int) (int64, error) {
+	var abs int64
+	switch whence {
+	case io.SeekStart:
+		abs = offset
+	case io.SeekCurrent:
+		abs = int64(s.off) + offset
+	case io.SeekEnd:
+		abs = int64(len(s.b)) + offset
+	default:
+		return 0, errors.New("c19 seekGuard: invalid whence")
+	}
+	if abs < 0 {
+		return 0, errors.New("c19 seekGuard: negative position")
+	}
+	if abs > 1<<40 {
+		abs = 1 << 40
+	}
+	s.off = int(abs)
+	return abs, nil
+}
+
+// ---------------------------------------------------------------- sources
+
+// The kinds of reader a decoder entry point is given. guard/seekguard/onebyte/pipe keep the
+// guard as the outermost reader; bytes.Reader, os.File and bufio are the real types, handed over
+// unguarded, and therefore used only after a guarded dry run of the same input withheld nothing.
+var sourceKinds = []string{"guard", "seekguard", "bytes.Reader", "os.File", "bufio", "onebyte", "pipe"}
+
+func sourceSeekable(kind string) bool {
+	return kind == "seekguard" || kind == "bytes.Reader" || kind == "os.File"
+}
+
+func sourceUnguarded(kind string) bool {
+	return kind == "bytes.Reader" || kind == "os.File" || kind == "bufio"
+}
+
+var drainModes = []string{"none", "part", "all"}
+
+// opt selects the source kind and, for the catar decoders, what the caller does with the payload
+// reader it is handed before asking for the next element. Zero value = guard, and the historic
+// behaviour of each target (FormatDecoder/ArchiveDecoder leave the payload unread, UnTar's
+// no-op writer drains it like LocalFS).
+type opt struct {
+	Src   string
+	Drain string
+}
+
+func (o opt) src() string {
+	if o.Src == "" {
+		return "guard"
+	}
+	return o.Src
+}
+
+func (o opt) drain(target string) string {
+	if o.Drain != "" {
+		return o.Drain
+	}
+	if target == "untar" {
+		return "all"
+	}
+	return "none"
+}
+
+var (
+	srcDirOnce sync.Once
+	srcDir     string
+	srcSeq     atomic.Int64
+)
+
+type source struct {
+	r       io.Reader
+	g       *guard // nil for unguarded kinds
+	cleanup func()
+	pos     func() int // bytes consumed, -1 if unknown
+}
+
+func openSource(kind string, in []byte, lo uint64, d *domain) source {
+	switch kind {
+	case "guard", "":
+		g := newGuard(in, lo, d)
+		return source{r: g, g: g, cleanup: func() {}, pos: func() int { return g.off }}
+	case "seekguard":
+		g := newGuard(in, lo, d)
+		return source{r: seekGuard{g}, g: g, cleanup: func() {}, pos: func() int { return g.off }}
+	case "onebyte":
+		g := newStreamGuard(iotest.OneByteReader(bytes.NewReader(in)), lo, d)
+		return source{r: g, g: g, cleanup: func() {}, pos: func() int { return g.off }}
+	case "pipe":
+		pr, pw := io.Pipe()
+		done := make(chan struct{})
+		go func() {
+			defer close(done)
+			if len(in) > 0 {
+				pw.Write(in)
+			}
+			pw.Close()
+		}()
+		g := newStreamGuard(pr, lo, d)
+		return source{r: g, g: g, cleanup: func() { pr.Close(); <-done }, pos: func() int { return g.off }}
+	case "bytes.Reader":
+		r := bytes.NewReader(in)
+		return source{r: r, cleanup: func() {}, pos: func() int { return len(in) - r.Len() }}
+	case "bufio":
+		return source{r: bufio.NewReaderSize(bytes.NewReader(in), 16), cleanup: func() {}, pos: func() int { return -1 }}
+	case "os.File":
+		srcDirOnce.Do(func() { srcDir = hx.Scratch("c19src") })
+		path := filepath.Join(srcDir, fmt.Sprintf("src-%d", srcSeq.Add(1)))
+		if err := os.WriteFile(path, in, 0o644); err != nil {
+			panic(err)
+		}
+		f, err := os.Open(path)
+		if err != nil {
+			panic(err)
+		}
+		return source{r: f, cleanup: func() { f.Close(); os.Remove(path) }, pos: func() int {
+			p, err := f.Seek(0, io.SeekCurrent)
+			if err != nil || p > int64(len(in)) {
+				return len(in)
+			}
+			return int(p)
+		}}
+	}
+	panic("c19: unknown source kind " + kind)
+}
+
+// drainPayload does with a payload reader what the drain mode says. An error met while reading
+// is the caller's error (LocalFS.CreateFile returns the copy error, too).
+func drainPayload(mode string, data io.Reader, size uint64) error {
+	switch mode {
+	case "all":
+		_, err := io.Copy(io.Discard, data)
+		return err
+	case "part":
+		n := size / 2
+		if n > 4096 {
+			n = 4096
+		}
+		if n == 0 {
+			return nil
+		}
+		_, err := io.ReadFull(data, make([]byte, n))
+		return err
+	}
+	return nil
 }
 
 // prescan is the guard for the entry points that wrap the input in their own buffered reader:
@@ -156,15 +342,18 @@ func allocBound(inputLen int, exempt uint64) uint64 {
 
 // ---------------------------------------------------------------- collaborators
 
-// nopFS is a FilesystemWriter that touches nothing. Like desync.LocalFS it copies the file
-// body (to nowhere) and reports the copy error.
-type nopFS struct{ nodes int }
+// nopFS is a FilesystemWriter that touches nothing. In drain mode "all" it copies the file body
+// (to nowhere) and reports the copy error like desync.LocalFS; "part"/"none" model a writer that
+// stops early (e.g. a failed or skipped file).
+type nopFS struct {
+	nodes int
+	drain string
+}
 
 func (f *nopFS) CreateDir(n desync.NodeDirectory) error { f.nodes++; return nil }
 func (f *nopFS) CreateFile(n desync.NodeFile) error {
 	f.nodes++
-	_, err := io.Copy(io.Discard, n.Data)
-	return err
+	return drainPayload(f.drain, n.Data, n.Size)
 }
 func (f *nopFS) CreateSymlink(n desync.NodeSymlink) error { f.nodes++; return nil }
 func (f *nopFS) CreateDevice(n desync.NodeDevice) error   { f.nodes++; return nil }
@@ -313,14 +502,39 @@ func frameContentSize(p []byte) uint64 {
 
 // runTarget feeds in to one decoder entry point. lo is the lower end of the unsafe interval
 // (2^30 in the quick tier; lower while fuzzing to keep executions cheap).
-func runTarget(target string, in []byte, lo uint64) (r res) {
+func runTarget(target string, in []byte, lo uint64) res { return runTargetOpt(target, in, lo, opt{}) }
+
+// sourceTargets are the entry points that take a reader from the caller (source-kind dimension).
+func sourceTarget(target string) bool {
+	switch target {
+	case "format", "archive", "untar", "index", "protomsg", "protohello", "protochunk", "protoserve":
+		return true
+	}
+	return false
+}
+
+func drainTarget(target string) bool {
+	return target == "format" || target == "archive" || target == "untar"
+}
+
+func runTargetOpt(target string, in []byte, lo uint64, o opt) (r res) {
 	r.Elem = "none"
 	dom := targetDomain(target)
+	kind := o.src()
+	drain := o.drain(target)
+	// fin copies what the source saw into the result
+	fin := func(src source) {
+		r.Consumed = src.pos()
+		if src.g != nil {
+			r.Elem, r.Unsafe = src.g.elem, src.g.unsafe
+		}
+		src.cleanup()
+	}
 	switch target {
 	case "format":
-		g := newGuard(in, lo, dom)
+		src := openSource(kind, in, lo, dom)
 		r.Err, r.Panic, r.Stack, r.Alloc = measure(func() error {
-			d := desync.NewFormatDecoder(g)
+			d := desync.NewFormatDecoder(src.r)
 			for {
 				e, err := d.Next()
 				if err != nil {
@@ -330,14 +544,19 @@ func runTarget(target string, in []byte, lo uint64) (r res) {
 					return nil
 				}
 				r.Calls++
+				if p, ok := e.(desync.FormatPayload); ok {
+					if err := drainPayload(drain, p.Data, p.Size-16); err != nil {
+						return err
+					}
+				}
 			}
 		})
-		r.Elem, r.Consumed, r.Unsafe = g.elem, g.off, g.unsafe
+		fin(src)
 
 	case "archive":
-		g := newGuard(in, lo, dom)
+		src := openSource(kind, in, lo, dom)
 		r.Err, r.Panic, r.Stack, r.Alloc = measure(func() error {
-			a := desync.NewArchiveDecoder(g)
+			a := desync.NewArchiveDecoder(src.r)
 			for {
 				n, err := a.Next()
 				if err != nil {
@@ -347,29 +566,44 @@ func runTarget(target string, in []byte, lo uint64) (r res) {
 					return nil
 				}
 				r.Calls++
+				if f, ok := n.(desync.NodeFile); ok {
+					if err := drainPayload(drain, f.Data, f.Size); err != nil {
+						return err
+					}
+				}
 			}
 		})
-		r.Elem, r.Consumed, r.Unsafe = g.elem, g.off, g.unsafe
+		fin(src)
 
 	case "untar":
-		g := newGuard(in, lo, dom)
-		fs := &nopFS{}
+		src := openSource(kind, in, lo, dom)
+		fs := &nopFS{drain: drain}
 		r.Err, r.Panic, r.Stack, r.Alloc = measure(func() error {
-			return desync.UnTar(context.Background(), g, fs)
+			return desync.UnTar(context.Background(), src.r, fs)
 		})
-		r.Elem, r.Consumed, r.Unsafe, r.Calls = g.elem, g.off, g.unsafe, fs.nodes
+		fin(src)
+		r.Calls = fs.nodes
 
 	case "index":
+		// IndexFromReader buffers the reader itself: the prescan is the guard for every source kind
 		r.Unsafe, r.Elem = prescan(in, lo, 0, 48)
 		if r.Unsafe {
 			r.Err = errUnsafe
 			return
 		}
-		r.Consumed = len(in)
+		if o.Src == "" {
+			kind = "bytes.Reader"
+		}
+		src := openSource(kind, in, 0, dom)
+		if src.g != nil {
+			src.g.lo = unsafeHi // (guard switched off: reads arrive in buffer-sized pieces anyway)
+		}
 		r.Err, r.Panic, r.Stack, r.Alloc = measure(func() error {
-			_, err := desync.IndexFromReader(bytes.NewReader(in))
+			_, err := desync.IndexFromReader(src.r)
 			return err
 		})
+		src.cleanup()
+		r.Consumed = len(in)
 
 	case "indexput":
 		r.Unsafe, r.Elem = prescan(in, lo, 0, 48)
@@ -412,9 +646,9 @@ func runTarget(target string, in []byte, lo uint64) (r res) {
 		})
 
 	case "protomsg":
-		g := newGuard(in, lo, dom)
+		src := openSource(kind, in, lo, dom)
 		r.Err, r.Panic, r.Stack, r.Alloc = measure(func() error {
-			p := desync.NewProtocol(g, io.Discard)
+			p := desync.NewProtocol(src.r, io.Discard)
 			for {
 				if _, err := p.ReadMessage(); err != nil {
 					return err
@@ -422,26 +656,29 @@ func runTarget(target string, in []byte, lo uint64) (r res) {
 				r.Calls++
 			}
 		})
-		r.Elem, r.Consumed, r.Unsafe = "Message", g.off, g.unsafe
+		fin(src)
+		r.Elem = "Message"
 
 	case "protohello":
-		g := newGuard(in, lo, dom)
+		src := openSource(kind, in, lo, dom)
 		r.Err, r.Panic, r.Stack, r.Alloc = measure(func() error {
-			_, err := desync.NewProtocol(g, io.Discard).RecvHello()
+			_, err := desync.NewProtocol(src.r, io.Discard).RecvHello()
 			return err
 		})
-		r.Elem, r.Consumed, r.Unsafe = "Message", g.off, g.unsafe
+		fin(src)
+		r.Elem = "Message"
 		if r.Panic != nil || r.Unsafe {
 			// Initialize receives the hello on a goroutine of its own: the same panic there
 			// would kill the process. Left out by construction when the direct call panics.
 			r.Skipped = "initialize"
 			return
 		}
-		g2 := newGuard(in, lo, dom)
+		src2 := openSource(kind, in, lo, dom)
 		err2, pv, st, al := measure(func() error {
-			_, err := desync.NewProtocol(g2, io.Discard).Initialize(desync.CaProtocolPullChunks)
+			_, err := desync.NewProtocol(src2.r, io.Discard).Initialize(desync.CaProtocolPullChunks)
 			return err
 		})
+		src2.cleanup()
 		if pv != nil {
 			r.Panic, r.Stack = pv, st
 		}
@@ -461,8 +698,8 @@ func runTarget(target string, in []byte, lo uint64) (r res) {
 			r.Unsafe = true
 			return
 		}
-		g := newGuard(append(validHello(desync.CaProtocolReadableStore), in...), lo, dom)
-		p := desync.NewProtocol(g, io.Discard)
+		src := openSource(kind, append(validHello(desync.CaProtocolReadableStore), in...), lo, dom)
+		p := desync.NewProtocol(src.r, io.Discard)
 		if _, err := p.Initialize(desync.CaProtocolPullChunks); err != nil {
 			panic("c19: handshake with a valid scripted hello failed: " + err.Error())
 		}
@@ -473,24 +710,30 @@ func runTarget(target string, in []byte, lo uint64) (r res) {
 			}
 			return err
 		})
-		r.Elem, r.Consumed, r.Unsafe = "Message", g.off-24, g.unsafe
+		fin(src)
+		r.Elem = "Message"
+		if r.Consumed >= 24 {
+			r.Consumed -= 24
+		}
 
 	case "protoserve":
 		// first the hello on this goroutine (see protohello)
-		g0 := newGuard(in, lo, dom)
+		src0 := openSource(kind, in, lo, dom)
 		r.Err, r.Panic, r.Stack, r.Alloc = measure(func() error {
-			_, err := desync.NewProtocol(g0, io.Discard).RecvHello()
+			_, err := desync.NewProtocol(src0.r, io.Discard).RecvHello()
 			return err
 		})
-		r.Elem, r.Consumed, r.Unsafe = "Message", g0.off, g0.unsafe
+		fin(src0)
+		r.Elem = "Message"
 		if r.Panic != nil || r.Unsafe {
 			r.Skipped = "serve"
 			return
 		}
-		g := newGuard(in, lo, dom)
-		srv := desync.NewProtocolServer(g, io.Discard, oneStore{sessID, sessData})
+		src := openSource(kind, in, lo, dom)
+		srv := desync.NewProtocolServer(src.r, io.Discard, oneStore{sessID, sessData})
 		r.Err, r.Panic, r.Stack, r.Alloc = measure(func() error { return srv.Serve(context.Background()) })
-		r.Consumed, r.Unsafe = g.off, g.unsafe
+		fin(src)
+		r.Elem = "Message"
 		r.Exempt = 8 * uint64(len(sessData)) * uint64(1+len(in)/56) // every request is answered with the chunk
 
 	default:
